@@ -107,3 +107,29 @@ pub fn points(i: &mut Inp) -> Out {
         .and(check(got.len() == 1 && got[0] == want0, "point != 3 * w^bitreverse(index)"));
     Out::new(ok, true)
 }
+
+/// two CONSECUTIVE indices q, q+1 (q symbolic): each is mapped independently to
+/// 3 * w^bitreverse(index) — guards against "sibling" shortcuts between adjacent queries
+pub fn points2(i: &mut Inp) -> Out {
+    let log = i.range_u8(2, 64) as u32;
+    let gen = i.felt();
+    let mask = if log == 64 { u64::MAX } else { (1u64 << log) - 1 };
+    let q0 = i.u64() & mask;
+    crate::compat::assume(q0 < mask);
+    let q1 = q0 + 1;
+    let size = if log == 64 { Felt::from(1u128 << 64) } else { Felt::from(1u64 << log) };
+    let dom = StarkDomains {
+        log_eval_domain_size: Felt::from(log as u64),
+        eval_domain_size: size,
+        eval_generator: gen,
+        log_trace_domain_size: Felt::ZERO,
+        trace_domain_size: Felt::ONE,
+        trace_generator: Felt::ONE,
+    };
+    let want0 = Felt::THREE * gen.pow(bitrev(q0, log));
+    let want1 = Felt::THREE * gen.pow(bitrev(q1, log));
+    let got = queries_to_points(&[Felt::from(q0), Felt::from(q1)], &dom);
+    let ok = check(got.len() == 2, "wrong number of points")
+        .and(check(got.len() == 2 && got[0] == want0 && got[1] == want1, "point != 3 * w^bitreverse(index) for one of two consecutive indices"));
+    Out::new(ok, true)
+}
